@@ -205,3 +205,7 @@ package buffer
 //@ func NewStreamLexer
 //@   requires[S] r != nil
 //@   ensures[S]  slInv(result) && result.prevStart == 0
+
+//@ func NewReader
+//@   ensures[S]  result != nil && sameSlice(result.buf, buf) && result.pos == 0
+//@   ensures[F,ghost] rlen(result) == len(buf)
